@@ -12,7 +12,12 @@ import (
 	"golang.org/x/tools/go/ssa"
 )
 
-func init() { register("C16", propC16) }
+func init() {
+	register("C16", func(w *World, r *Report, tier string) {
+		propC16(w, r, tier)
+		importStateless(w, r, tier, []string{"nasConvert/ProtocolConfigurationOptions.go", "nasConvert/PSI.go", "nasConvert/PDUSessionReactivationResultErrorCause.go"}, "PCO and PSI conversions")
+	})
+}
 
 func propC16(w *World, r *Report, tier string) {
 	r.Explanation = "PDU session status bitmap (E2, loops unrolled by constant propagation, branches if-converted): PSIToBooleanArray maps bit i%8 of octet i/8 to entry i, " +
@@ -643,6 +648,56 @@ func readerModels(it *Interp) {
 		}
 		st.mem[rp.Obj][".pos"] = it.constBV(uint64(pos+1), 64)
 		return TupleV{b, NilV{}}, true
+	}
+	// Read(p): copies min(len(p), unread) octets; (0, io.EOF) when nothing is unread and len(p) > 0
+	bufRead := func(full bool) func(it *Interp, st *state, call *ssa.CallCommon, args []Value) (Value, bool) {
+		return func(it *Interp, st *state, call *ssa.CallCommon, args []Value) (Value, bool) {
+			rp, ok := args[0].(Ptr)
+			dst, okD := args[1].(SliceV)
+			if !ok || !okD || dst.Len < 0 {
+				return nil, false
+			}
+			zeroBuffer(it, st, rp.Obj)
+			data, ok1 := st.mem[rp.Obj][".data"].(SliceV)
+			pos, ok2 := it.concreteInt(st.mem[rp.Obj][".pos"])
+			if !ok1 || !ok2 || data.Len < 0 {
+				return nil, false
+			}
+			n := dst.Len
+			if pos+n > data.Len {
+				n = data.Len - pos
+			}
+			if n < 0 {
+				n = 0
+			}
+			for i := 0; i < n; i++ {
+				b, ok := it.load(st, it.sliceElemPtr(data, pos+i), u8T).(BV)
+				if !ok {
+					return nil, false
+				}
+				it.storeQuiet(st, it.sliceElemPtr(dst, i), b)
+			}
+			st.mem[rp.Obj][".pos"] = it.constBV(uint64(pos+n), 64)
+			cnt := it.constBV(uint64(n), 64)
+			cnt.Signed = true
+			switch {
+			case dst.Len == 0:
+				return TupleV{cnt, NilV{}}, true
+			case n == 0, full && n < dst.Len:
+				return TupleV{cnt, ErrV{it.T.zero}}, true // io.EOF / io.ErrUnexpectedEOF
+			}
+			return TupleV{cnt, NilV{}}, true
+		}
+	}
+	it.Models["(*bytes.Buffer).Read"] = bufRead(false)
+	it.Models["(*bytes.Reader).Read"] = bufRead(false)
+	it.Models["io.ReadFull"] = func(it *Interp, st *state, call *ssa.CallCommon, args []Value) (Value, bool) {
+		if rp, ok := args[0].(Ptr); ok {
+			if _, isBuf := st.mem[rp.Obj][".data"]; isBuf {
+				return bufRead(true)(it, st, call, args)
+			}
+		}
+		return nil, false
 	}
 	it.Models["(*bytes.Buffer).Next"] = func(it *Interp, st *state, call *ssa.CallCommon, args []Value) (Value, bool) {
 		rp, ok := args[0].(Ptr)
